@@ -17,7 +17,7 @@ The change set produced by a dry run is not handed to anything (dropped): in Exe
 changes of the produced result flow to no call; the executor's dry-run entry points are generic over a
 storage that is only required to be a (historical) view.
 """
-NOT_DECIDED = """Determinism of repeated answers (values); the wasm executor path (feature wasm-executor is not analysed)."""
+NOT_DECIDED = """Determinism of repeated answers beyond the absence of non-chain inputs (wall clock, relayer progress, pool, randomness) on the producer- and executor-side dry-run paths; the wasm executor path (feature wasm-executor is not analysed)."""
 
 CRATES = ["fuel_core", "fuel_core_producer", "fuel_core_upgradable_executor", "fuel_core_executor", "fuel_core_storage", "fuel_core_txpool",
           "fuel_core_importer", "fuel_core_tx_status_manager", "fuel_core_types"]
@@ -147,3 +147,42 @@ def check(ctx):
                 bad = [p for p in it["preds"] if p.startswith("S: ") and any(x in p for x in ("Modifiable", "KeyValueMutate", "Transactional", "StorageMutate"))]
                 ctx.add(f"3.{fn}-storage-is-view-only", "BOUND", not bad and ("HistoricalView" in preds or "AtomicView" in preds),
                         f"Executor::{fn} requires of its storage only view capabilities", sites=[p for p in it["preds"] if p.startswith("S:")][:3], site_key=fn)
+
+    # -- 3. repeatability, structural part: the dry-run path consults no input other than the chain view --
+    with ctx.clause("3.no-non-chain-input"):
+        NONDET = ["tai64::Tai64::now", "std::time::SystemTime::now", "std::time::Instant::now", "tokio::time::Instant::now",
+                  "tokio::time::instant::Instant::now", "rand::*", "fuel_core_producer::ports::Relayer::*", "fuel_core_producer::ports::TxPool::*",
+                  "fuel_core_producer::block_producer::gas_price::GasPriceProvider::production_gas_price",
+                  "fuel_core_producer::block_producer::Producer::new_header_with_new_da_height",
+                  "fuel_core_producer::block_producer::Producer::select_new_da_height"]
+        groups = [
+            ("producer", [f"{PROD}::dry_run", f"{PROD}::storage_read_replay"], ["fuel_core_producer"], 6),
+            ("executor", [f"{UEX}::dry_run", f"{UEX}::storage_read_replay",
+                          "<fuel_core::service::adapters::ExecutorAdapter as fuel_core_producer::ports::DryRunner>::dry_run",
+                          "<fuel_core::service::adapters::ExecutorAdapter as fuel_core_producer::ports::StorageReadReplayRecorder>::storage_read_replay"],
+             ["fuel_core_upgradable_executor"], 8),
+        ]
+        for name, rts, crs, floor in groups:
+            for r in rts:
+                F.unit(r)  # AnchorMissing if an entry point disappears
+            v, cs = ctx.reach_calls(rts, crs, max_depth=8)
+            ctx.add(f"3.{name}-reach-size", "COUNT", len(v) >= floor, f"{len(v)} units / {len(cs)} call sites of {crs[0]} reachable from the {name} dry-run entry points",
+                    sites=sorted({q for q, _ in v})[:10], site_key="size")
+            badc = [(c, ch) for c, ch in cs if any(c.is_path(s) for s in NONDET)]
+            seen = set()
+            for c, ch in badc:
+                k = (c.body.unit, c.path)
+                if k in seen:
+                    continue
+                seen.add(k)
+                ctx.add(f"3.{name}-non-chain-input", "EFFECT", False,
+                        f"`{c.path}` (wall clock / relayer progress / pool / randomness) at {c.where()} is consulted on the dry-run path via {' -> '.join(x.split('::')[-1] for x in ch)}: "
+                        f"the answer then differs between two identical requests on an unchanged chain",
+                        sites=[c.where()], site_key=f"{c.body.unit}:{c.path}", witness={"chain": list(ch)})
+            if not badc:
+                ctx.add(f"3.{name}-non-chain-input", "EFFECT", True, f"no wall-clock, relayer-progress, pool or randomness source is called on the {name} dry-run path",
+                        sites=sorted({q for q, _ in v})[:10], site_key="none")
+        # positive control: the producing path does consult the relayer
+        pv, pcs = ctx.reach_calls([f"{PROD}::produce_and_execute"], ["fuel_core_producer"], max_depth=6)
+        hits = [c for c, _ in pcs if any(c.is_path(s) for s in NONDET)]
+        ctx.add("3.positive-control", "EFFECT", len(hits) >= 1, f"control: the block-producing path reaches {len(hits)} such sources (relayer DA height)", sites=[c.where() for c in hits[:3]], site_key="control")
